@@ -5,7 +5,8 @@
 enum { EV_OP = 1, EV_OP_RET, EV_HOOK_START, EV_HOOK_STOP, EV_CB, EV_LATE, EV_FAULT, EV_RES, EV_TIMEOUT, EV_NOTE };
 enum { OP_CREATE = 1, OP_THREADS_CREATE, OP_ATTACH_FIRST, OP_SENDERS_START, OP_SENDERS_STOP, OP_ARM_EVENTS,
        OP_SHUTDOWN_MAIN, OP_SHUTDOWN_EXT, OP_SHUTDOWN_POOL, OP_WAIT_MAIN, OP_WAIT_POOL, OP_DESTROY_MAIN, OP_DESTROY_POOL,
-       OP_SLEEP_US, OP_GO /* release the concurrent shutdown callers */, OP_JOIN_HELPERS, OP_THREADS_CREATE_AGAIN };
+       OP_SLEEP_US, OP_GO /* release the concurrent shutdown callers */, OP_JOIN_HELPERS, OP_THREADS_CREATE_AGAIN,
+       OP_GATE /* park worker arg inside a callback */, OP_FLOOD /* fill worker arg's queue until EAGAIN */, OP_UNGATE };
 enum { FK_NONE = 0, FK_CALLOC, FK_EPOLL_CREATE, FK_PIPE2, FK_EPOLL_CTL, FK_PTHREAD_CREATE, FK__N };
 
 static tp_p g_tp;
@@ -54,6 +55,8 @@ static inline void any_cb(int what) {
 	__atomic_add_fetch(&g_cb_total, 1, __ATOMIC_RELAXED);
 }
 static void msg_cb(tpt_p tpt, void *udata) { (void)tpt; (void)udata; any_cb(1); }
+static sem_t g_gate_sem; static volatile uint64_t g_gated;
+static void gate_cb(tpt_p tpt, void *udata) { (void)tpt; (void)udata; __atomic_add_fetch(&g_gated, 1, __ATOMIC_RELEASE); sem_wait(&g_gate_sem); any_cb(4); }
 
 typedef struct { tp_udata_t u; int fd[2]; } evrec_t;
 static evrec_t g_timers[32], g_reads[32];
@@ -125,9 +128,9 @@ int main(void) {
 	size_t len; uint8_t *c; vout_t o = {0}; vin_t in;
 	uint64_t seed; unsigned nops, i, flags, nh = 0, nsend = 0, pool_ops = 0;
 	pthread_t helpers[MAXH], senders[MAXH];
-	tp_settings_t s; int rc, fd0, fd1, task0, task1, created = 0, destroyed_ok = 0, shut = 0, timeout = 0;
+	tp_settings_t s; int rc, fd0, fd1, task0, task1, created = 0, destroyed_ok = 0, shut = 0, timeout = 0; unsigned gates = 0;
 
-	vdrv_case_secs = 120; vdrv_init(); tm_watchdog(90);
+	vdrv_case_secs = 120; vdrv_init(); tm_watchdog(45); sem_init(&g_gate_sem, 0, 0);
 	c = vdrv_next_case(&len); if (!c) return 0;
 	in.p = c; in.n = len; in.o = 0; in.bad = 0;
 	seed = vin_u64(&in); g_pool = vin_u8(&in); flags = vin_u32(&in);
@@ -211,6 +214,22 @@ int main(void) {
 			if (rc == 0) { __atomic_store_n(&g_destroyed, 1, __ATOMIC_RELAXED); destroyed_ok = 1; created = 0; }
 			TM_LOG(EV_OP_RET, OP_DESTROY_MAIN, 0, 0, rc);
 			break;
+		case OP_GATE:
+			if (!created) break;
+			if (0 == tpt_msg_send(tp_thread_get(g_tp, arg % g_pool), NULL, 0, gate_cb, NULL)) {
+				uint64_t want = __atomic_load_n(&g_gated, __ATOMIC_ACQUIRE) + 1;
+				tm_wait_ge(&g_gated, want, 10000);
+				gates++;
+			}
+			break;
+		case OP_FLOOD:
+			if (!created) break;
+			{ unsigned n; int frc = 0; for (n = 0; n < 6000 && 0 == (frc = tpt_msg_send(tp_thread_get(g_tp, arg % g_pool), NULL, 0, msg_cb, NULL)); n++) { }
+			  TM_LOG(EV_NOTE, 3, n, 0, frc); }
+			break;
+		case OP_UNGATE:
+			while (gates) { sem_post(&g_gate_sem); gates--; }
+			break;
 		case OP_SLEEP_US: { struct timespec ts = {0, (long)arg * 1000}; nanosleep(&ts, NULL); } break;
 		case OP_JOIN_HELPERS:
 			__atomic_store_n(&g_go, 1, __ATOMIC_RELEASE);
@@ -221,6 +240,7 @@ int main(void) {
 	}
 	/* canonical epilogue: whatever the history did, finish with a legal teardown */
 	__atomic_store_n(&g_go, 1, __ATOMIC_RELEASE);
+	while (gates) { sem_post(&g_gate_sem); gates--; }
 	if (created) {
 		if (pool_ops) { /* let queued pool-side operations run before teardown */
 			uint64_t t0 = tm_now();
